@@ -231,6 +231,8 @@ class Index(ArraySchema[pd.Index]):
         return False
 
     def __eq__(self, other):
+        if not isinstance(other, type(self)):
+            return NotImplemented
         return self.__dict__ == other.__dict__
 
     ###########################
@@ -424,6 +426,8 @@ class MultiIndex(DataFrameSchema):
         )
 
     def __eq__(self, other):
+        if not isinstance(other, type(self)):
+            return NotImplemented
         return self.__dict__ == other.__dict__
 
     ###########################
